@@ -95,6 +95,12 @@ def _variants():
     p = list(b["profiles"])
     p[4] = p[4] * (1 + 1e-12)
     V.append(("Kz-tiny", {"profiles": tuple(p)}))
+    # one profile stored in single precision (a Kz read from a float32 file) and the request with exactly the same VALUES in
+    # double precision: the solver computes 1/Kz in the precision it is given, so the two results differ in the 9th digit
+    p = list(b["profiles"])
+    kz32 = p[4].astype(np.float32)
+    V.append(("Kz-float32", {"profiles": (p[0], p[1], p[2], p[3], kz32)}))
+    V.append(("Kz-float32-values-in-float64", {"profiles": (p[0], p[1], p[2], p[3], kz32.astype(np.float64))}))
     # long arguments that differ only in the middle (a key built from a printed / abbreviated form of an array
     # cannot tell them apart): a 1202-layer column with the full column requested, the same with two middle levels
     # swapped, and the column with one middle node moved (scalar level)
@@ -349,7 +355,7 @@ def machine(tier, stats, last_fail):
             self._do(["solve", i])
 
         @rule(i=st.sampled_from([NAMES.index(n) for n in ("tall-all-levels", "tall-middle-levels-swapped", "tall-scalar-level",
-                                                            "tall-middle-node-moved")]))
+                                                            "tall-middle-node-moved", "Kz-float32", "Kz-float32-values-in-float64")]))
         def solve_tall(self, i):
             self._do(["solve", i])
 
